@@ -596,8 +596,13 @@ func lexInsideTag(l *lexer) stateFn {
 		// the single-character symbols
 		l.emit(arithmeticItemsBySymbol[string(r)])
 	case r == '>', r == '!', r == '<', r == '=' && l.peek() == '=':
-		// 1 or 2 character symbols
-		l.accept("*/%+-=!<>|&?:")
+		// 1 or 2 character symbols: the second character is taken only if the
+		// two form a symbol ("$a<-1" is "$a < -1")
+		if l.accept("*/%+-=!<>|&?:") {
+			if _, ok := arithmeticItemsBySymbol[l.input[l.start:l.pos]]; !ok {
+				l.backup()
+			}
+		}
 		sym := l.input[l.start:l.pos]
 		item, ok := arithmeticItemsBySymbol[sym]
 		if !ok {
